@@ -284,6 +284,7 @@ def catalogue(private=False):
     add("[[geo:combine(interface)]]", "combine")
     add("[[combine:combine_i(modproc)]]", "combine_i")  # a `module procedure` line has no place of its own: the procedure it names
     add("[[shape(type):done(final)]]", "shape/done(final)")
+    add("[[shape(type):shape(constructor)]]", "shape/shape(constructor)")
     add("[[bd:blk(common)]]", "bd/blk(common)")
     add("[[geo:scale(function)]]", "scale")
     add("[[other:shape2(type)]]", "shape2")
